@@ -252,6 +252,18 @@ def c07_events(version, n, seed):
             events.append({"kind": "dec", "beta": bits(bb[i]), "g": bits(tg[i]), "bt": bits(tb[i]), "u": bits(uu[i]), "L": bits(L[i]),
                            "alt": bits(alt[i]), "R": bits(R),
                            "_m": {"ver": version, "beta": bb[i], "gamma": float(tg[i]), "u": uu[i], "L": float(L[i]), "alt": float(alt[i])}})
+        # the SAME array objects passed to a second call (a second draw for the same taus): judged against pristine copies
+        keep = [bb.copy(), tb.copy(), tg.copy()]
+        u1 = rng.uniform(0.05, 1.0, k)
+        eas.altDec(bb, tb, tg, u1)
+        u2r = rng.uniform(0.05, 1.0, k)
+        alt_r, L_r = eas.altDec(bb, tb, tg, u2r)
+        for i in range(0, k, 3):
+            events.append({"kind": "dec", "beta": bits(keep[0][i]), "g": bits(keep[2][i]), "bt": bits(keep[1][i]), "u": bits(u2r[i]),
+                           "L": bits(L_r[i]), "alt": bits(alt_r[i]), "R": bits(R),
+                           "_m": {"ver": version, "second_call_same_arrays": True, "gamma": float(keep[2][i]), "u": float(u2r[i]),
+                                  "L": float(L_r[i])}})
+        bb, tb, tg = keep
         # internal generator == explicit u (constant stream)
         with rngmod.constant(0.31):
             alt_i, L_i = eas.altDec(bb.copy(), tb.copy(), tg.copy())
